@@ -194,6 +194,37 @@ def run(ctx):
             samples.append({"value": src, "schema": repr(s).replace("\n", " ")[:200],
                             "perturbations_tried": len(ws)})
 
+    # ---- instances of SUBCLASSES of the plain kinds (user subclasses, enum members, OrderedDict / defaultdict / Counter,
+    # datetime subclasses) are converted by isinstance: the schema accepts the very value it was made from, and
+    # generates an equal one - alone, as a list member, as a dict member
+    import collections
+    import datetime as _dtm
+    import enum
+
+    class _DtSub(_dtm.datetime):
+        pass
+
+    class _StrEnum(str, enum.Enum):
+        A = "a"
+    subs = [("_IntSub(7)", gen._IntSub(7)), ("_StrSub('ab')", gen._StrSub("ab")), ("_FloatSub(1.5)", gen._FloatSub(1.5)), ("_ListSub([1])", gen._ListSub([1])),
+            ("_DictSub({'a': 1})", gen._DictSub({"a": 1})), ("_IntColor.RED", gen._IntColor.RED), ("<str enum member>", _StrEnum.A),
+            ("collections.OrderedDict(a=1)", collections.OrderedDict(a=1)), ("collections.defaultdict(int, {'a': 1})", collections.defaultdict(int, {"a": 1})),
+            ("collections.Counter('aab')", collections.Counter("aab")), ("<datetime subclass>(2020, 1, 2)", _DtSub(2020, 1, 2)), ("True", True)]
+    for src0, z in subs:
+        for src, v in ((src0, z), (f"[0, {src0}]", [0, z]), (f"{{'k': {src0}}}", {"k": z})):
+            dist["subclass_instances"] = dist.get("subclass_instances", 0) + 1
+            oracle_cases += 1
+            try:
+                s = from_native(v)
+                errs = [type(e).__name__ for e in validate(s, v).get_errors()]
+                with tape.scripted(tape.Tape([1, 2, 3])):
+                    g = fake(s)
+                why = f"rejects it: {errs}" if errs else (None if g == v else f"generates {g!r}")
+            except Exception as e:  # noqa
+                why = f"raised {type(e).__name__}: {str(e)[:100]}"
+            if why:
+                ctx.violation("from_native(v) for an instance of a subclass of a plain kind does not describe v",
+                              {"kind": "input", "value": src, "observed": why, "expected": "a schema that accepts v and generates a value equal to v"})
     # ---- everything else is refused with ValueError (at any depth)
     for src, v in _nonplain_values(r):
         record(src, v)
